@@ -53,7 +53,10 @@ let conn_out_of = function "ok" -> OOk | "fail" -> OFail | "fatal" -> OFatal | s
 (* implementation events -> cev; also the direct (implementation-only) findings *)
 type absres = { evs : cev list; direct : string list; lazy_ : bool; force : bool }
 
-let abstract (events : string list) : absres =
+let abstract ?(firstdelay = 0) ?(window = -1) ?(backoff = 1) ?(cmdbackoff = 1) (events : string list) : absres =
+  let last_connerr = ref (-1) in
+  let last_cmderr = Hashtbl.create 8 in
+  let last_status = ref 0 in
   let direct = ref [] in
   let out = ref [] in
   let lazy_ = ref false and force = ref false in
@@ -66,9 +69,17 @@ let abstract (events : string list) : absres =
       let fs = String.split_on_char '/' ev in
       match fs with
       | "new" :: _ -> lazy_ := fval "lazy" fs = "true"; force := fval "force" fs = "true"
-      | "ondisconnected" :: st :: _ -> add (EvDisc (zi (int_of_string st)))
+      | "ondisconnected" :: st :: _ -> last_connerr := -1; last_status := int_of_string st; add (EvDisc (zi (int_of_string st)))
       | "timerstart" :: _ ->
-          timer_start := tval fs; timer_d := (int_of_string (fval "d" fs)) / 1000000; first_fire := -1; add EvTimerStart
+          let dns = int_of_string (fval "d" fs) in
+          (* the delay chosen: exactly the first-connect delay, or a value in [0, window) (0 for a zero window) *)
+          if firstdelay > 0 && !last_status = 2 then begin
+            if dns <> firstdelay * 1000000 then direct := Printf.sprintf "sig=delay-value the first-connect delay started is %d ns, configured %d ms" dns firstdelay :: !direct
+          end else if window >= 0 then begin
+            if (window = 0 && dns <> 0) || (window > 0 && (dns < 0 || dns >= window * 1000000)) then
+              direct := Printf.sprintf "sig=delay-value the reconnect delay started is %d ns, outside [0, %d ms)" dns window :: !direct
+          end else direct := Printf.sprintf "sig=delay-unconfigured a connect delay of %d ns was started although none is configured for this kind of sequence" dns :: !direct;
+          timer_start := tval fs; timer_d := dns / 1000000; first_fire := -1; add EvTimerStart
       | "delaydone" :: _ ->
           let t = tval fs in
           let ran_out = !timer_start >= 0 && t - !timer_start >= !timer_d - 1 in
@@ -78,6 +89,9 @@ let abstract (events : string list) : absres =
           timer_start := -1;
           add EvDelayDone
       | "dial-begin" :: _ ->
+          if !last_connerr >= 0 && tval fs - !last_connerr < backoff - 1 then
+            direct := Printf.sprintf "sig=retry-before-backoff the next dial began %d ms after the failure was notified, the configured backoff is %d ms" (tval fs - !last_connerr) backoff :: !direct;
+          last_connerr := -1;
           if fval "inprogress" fs <> "1" then direct := Printf.sprintf "sig=two-dials-in-progress a Dial began while %s were in progress" (fval "inprogress" fs) :: !direct;
           add EvDialBegin
       | "dial-end" :: _ :: "ok" :: x :: _ -> add (EvDialEnd (DOk0, zi (int_of_string x)))
@@ -85,7 +99,11 @@ let abstract (events : string list) : absres =
       | "dial-end" :: _ :: "fatal" :: _ -> add (EvDialEnd (DFatal, zi 0))
       | "register" :: x :: _ -> add (EvRegister (zi (int_of_string x)))
       | "onconnect" :: _ :: o :: _ -> add (EvOnConnect (conn_out_of o))
-      | "onconnecterror" :: _ -> add EvConnErr
+      | "onconnecterror" :: _ ->
+          if fval "d" fs <> "" && int_of_string (fval "d" fs) <> backoff * 1000000 then
+            direct := Printf.sprintf "sig=backoff-value OnConnectError was told a backoff of %s ns, the configured one is %d ms" (fval "d" fs) backoff :: !direct;
+          last_connerr := tval fs;
+          add EvConnErr
       | "finalize" :: x :: _ -> add (EvFinalize (zi (int_of_string x)))
       | "cmdstart" :: id :: _ -> add (EvCmdStart (zi (int_of_string id), fval "force" fs = "true", fval "firenow" fs = "true"))
       | "firenow" :: id :: _ ->
@@ -98,12 +116,21 @@ let abstract (events : string list) : absres =
           add (EvWaiting (zi (int_of_string id), fn, fval "status" fs <> "1"))
       | "exec" :: id :: k :: o :: rest ->
           Hashtbl.remove req id;
+          (match Hashtbl.find_opt last_cmderr id with
+           | Some t0 when tval rest >= 0 && tval rest - t0 < cmdbackoff - 1 ->
+               direct := Printf.sprintf "sig=retry-before-backoff command %s was executed again %d ms after its retriable failure was notified, the command backoff is %d ms" id (tval rest - t0) cmdbackoff :: !direct
+           | _ -> ());
+          Hashtbl.remove last_cmderr id;
           if fval "cstate" rest <> "ok" && fval "client" rest = "true" then
             direct := Printf.sprintf "sig=exec-with-unconnected-client command %s was executed with a client whose connect callback %s" id
                         (match fval "cstate" rest with "pending" -> "had not returned yet" | "failed" -> "had failed" | s -> "is " ^ s) :: !direct;
           if fval "client" rest <> "true" then direct := Printf.sprintf "sig=exec-without-client command %s was executed with a nil client" id :: !direct;
           add (EvExec (zi (int_of_string id), zi (int_of_string k), cmd_out_of o))
-      | "ondocommanderror" :: id :: _ -> (match int_of_string_opt id with Some i -> add (EvCmdErr (zi i)) | None -> direct := "sig=cmderr-unknown OnDoCommandError with an error no command returned" :: !direct)
+      | "ondocommanderror" :: id :: _ ->
+          if fval "d" fs <> "" && int_of_string (fval "d" fs) <> cmdbackoff * 1000000 then
+            direct := Printf.sprintf "sig=backoff-value OnDoCommandError was told a backoff of %s ns, the configured one is %d ms" (fval "d" fs) cmdbackoff :: !direct;
+          Hashtbl.replace last_cmderr id (tval fs);
+          (match int_of_string_opt id with Some i -> add (EvCmdErr (zi i)) | None -> direct := "sig=cmderr-unknown OnDoCommandError with an error no command returned" :: !direct)
       | "cmdret" :: id :: cls :: _ ->
           Hashtbl.remove req id;
           let i = int_of_string id in
@@ -115,7 +142,7 @@ let abstract (events : string list) : absres =
       | "cancelcmd" :: id :: _ -> Hashtbl.replace cancelled (int_of_string id) (); add (EvCancel (zi (int_of_string id)))
       | "disconnect" :: _ -> add EvDisconnect
       | "fastforward" :: _ -> if !timer_start >= 0 && !first_fire < 0 then first_fire := tval fs; add EvFastForward
-      | "shutdown" :: _ -> add EvShutdown
+      | "shutdown" :: _ -> last_connerr := -1; add EvShutdown
       | "timeout" :: what -> direct := Printf.sprintf "sig=stuck:%s the harness gave up waiting (5 s) for: %s" (List.hd (what @ [ "?" ])) (String.concat "/" what) :: !direct
       | _ -> ())
     events;
@@ -171,7 +198,10 @@ let run_conn which toks obs =
            let okv = parse_kv (List.tl (List.tl ot)) in
            if kv "panic" okv <> "" then Printf.sprintf "PROPFAIL %s sig=panic the harness case panicked: %s" id (kv "panic" okv) else
            let events = split_on ';' (kv "ev" okv) in
-           let a = abstract events in
+           let a = abstract ~firstdelay:(match int_of_string_opt (kv "firstdelay" k) with Some d -> d | None -> 0)
+                     ~window:(match int_of_string_opt (kv "window" k) with Some w -> w | None -> -1)
+                     ~backoff:(match int_of_string_opt (kv "backoff" k) with Some w when w > 0 -> w | _ -> 1)
+                     ~cmdbackoff:(match int_of_string_opt (kv "cmdbackoff" k) with Some w when w > 0 -> w | _ -> 1) events in
            let fails = ref (List.map (fun d -> d) a.direct) in
            let chk name b what = if not b then fails := Printf.sprintf "sig=%s %s" name what :: !fails in
            chk "c14-one-dial" (c14_one_dial a.evs) "two dial attempts overlapped";
